@@ -228,7 +228,8 @@ def r4_peers(ctx):
         same = any(a[0] == 'bool' and a[2] is True and _peer_test(ctx.P, a[1]) for a in atoms)
         if same:
             early = True
-            ctx.check(nput == 0, 'idempotent', 'connecting an already connected pair changes nothing', f.where_path(path), nput)
+            stores = sorted({e[2] for e in effs if e[0] == 'w'} | {e[1].name.split('::')[-1] for e in effs if e[0] == 'c' and e[1].name.split('::')[-1] in ('replace', 'insert', 'get_or_insert', 'get_or_insert_with', 'take', 'swap') and ('option::Option' in e[1].name or e[1].name.startswith('std::mem::'))})
+            ctx.check(nput == 0 and not stores, 'idempotent', 'connecting an already connected pair changes nothing (no slot, peer or channel is written)', f.where_path(path), {'puts': nput, 'stores': stores})
         else:
             ctx.check(nput == 2, 'symmetric', 'a new connection is entered into both tables (symmetry)', f.where_path(path), nput)
     ctx.check(early, 'already-connected-check', 'connect detects an existing connection to the same peer', f.where())
@@ -416,6 +417,10 @@ def r8_whole_chain(ctx):
 
 def run(ctx):
     r8_whole_chain(ctx)
+    # (R9) every hop delays by its channel and hands the message on: the idle path of Channel::send_message (busy period announced before
+    # the exit event, exit at now + duration; shared with C07.R4)
+    from .C07 import r4_idle_path
+    r4_idle_path(ctx, rule='C08.R9')
     r1_cross_wiring(ctx)
     r2_next_hop(ctx)
     r3_entry_slot(ctx)
